@@ -8,6 +8,7 @@ from vp.ref import conv as refconv
 
 PROPERTY = "C03"
 RULE = (
+    "(extended 2) large: frames with more than 2^15 and more than 2^16 unmasked pixels (whole-number values and kernels, exact comparison with a vectorised whole-frame convolution) for convolve_image, convolve_image_no_blurring and two sparse mapping-matrix columns placed at the highest slim indexes. "
     "(extended) kernels also include small whole numbers with exact -1.0 / 0.0 / repeated entries (sentinel values, exact cancellations). "
     "Hypothesis: masks (holes, several components, bridges; inner part up to 7x7) padded with a masked ring of the "
     "kernel half-widths, odd kernels 1..7 per axis independently (non-negative / signed / sparse / normalised, all "
@@ -329,10 +330,67 @@ def body_simulator(case, ctx):
     ctx.close(resid, np.zeros_like(resid), "simulator/zero-residual", atol=tol, what="residual of the generating image against its noise-free simulation")
 
 
+# ---------------------------------------------------------------------------------------------
+# large frames: more unmasked pixels than a 16-bit index can address (frame index tables, lengths)
+def cases_large(tier):
+    """(H, W, kernel shape, value seed). Unmasked counts just above 2**15 and 2**16; the mask keeps a masked rim of the
+    kernel half-widths plus a masked hole, values are small whole numbers so sums are exact."""
+    quick = [(184, 184, (3, 3), 1), (260, 259, (1, 3), 2)]
+    more = [(183, 184, (3, 1), 3), (130, 300, (3, 3), 4), (258, 258, (3, 3), 5), (300, 225, (5, 3), 6)]
+    for h, w, ks, sd in (quick if tier == "quick" else quick + more):
+        yield {"h": h, "w": w, "kshape": list(ks), "vseed": sd}
+
+
+def body_large(case, ctx):
+    import autoarray as aa
+    h, w = case["h"], case["w"]
+    kh, kw = case["kshape"]
+    hy, hx = kh // 2, kw // 2
+    m = np.ones((h, w), dtype=bool)
+    m[max(1, hy):h - max(1, hy), max(1, hx):w - max(1, hx)] = False
+    m[h // 3:h // 3 + 3, w // 4:w // 4 + 11] = True          # a hole, so the blurring region is not only the rim
+    n = int((~m).sum())
+    ctx.nt(n > 2 ** 15)
+    ctx.label("large:n>2^16" if n > 2 ** 16 else "large:n>2^15")
+    # deterministic small whole-number values and kernel (a fixed multiplicative pattern, no RNG)
+    yy, xx = np.mgrid[0:h, 0:w]
+    native = (((yy * 7 + xx * 13 + case["vseed"] * 5) % 9) - 4).astype(float)
+    k = ((np.arange(kh * kw).reshape(kh, kw) * 3 + case["vseed"]) % 5 - 1).astype(float)
+    k[hy, hx] = 2.0
+    mask = aa.Mask2D(mask=m.copy(), pixel_scales=1.0)
+    kernel = aa.Kernel2D.no_mask(values=k.copy(), pixel_scales=1.0, normalize=False)
+    convolver = ctx.impl("large/convolver/construct", aa.Convolver, mask=mask, kernel=kernel)
+    blur, _ = refconv.blurring_region_fast(m, (kh, kw))
+    bm = ~blur
+    image = aa.Array2D(values=native[~m].copy(), mask=mask)
+    bmask = aa.Mask2D(mask=bm.copy(), pixel_scales=1.0)
+    bimage = aa.Array2D(values=native[blur].copy(), mask=bmask)
+    got = np.asarray(convolver.convolve_image(image=image, blurring_image=bimage))
+    combined = np.where(~m | blur, native, 0.0)
+    want = refconv.full_convolve(combined, k)[~m]
+    ctx.equal(got, want, "large/convolve_image", "n=%d unmasked pixels, kernel %dx%d" % (n, kh, kw))
+    got_nb = np.asarray(convolver.convolve_image_no_blurring(image=image))
+    want_nb = refconv.full_convolve(np.where(~m, native, 0.0), k)[~m]
+    ctx.equal(got_nb, want_nb, "large/convolve_image_no_blurring", "n=%d" % n)
+    # two sparse mapping-matrix columns whose non-zeros sit at the highest slim indexes and around 2**15 / 2**16
+    mm = np.zeros((n, 2))
+    for j, centre in enumerate((n - 3, (2 ** 16 + 5) if n > 2 ** 16 + 10 else (2 ** 15 + 5))):
+        for t in range(-2, 3):
+            if 0 <= centre + t < n:
+                mm[centre + t, j] = float(t + 3) * (1 if j == 0 else -1)
+    got_mm = np.asarray(convolver.convolve_mapping_matrix(mapping_matrix=mm.copy()))
+    want_mm = np.zeros((n, 2))
+    for j in range(2):
+        colnat = np.zeros((h, w)); colnat[~m] = mm[:, j]
+        want_mm[:, j] = refconv.full_convolve(colnat, k)[~m]
+    ctx.equal(got_mm, want_mm, "large/convolve_mapping_matrix", "n=%d" % n)
+
+
 SUBCHECKS = [
     SubCheck("image", body_image, strategy=image_case(), examples={"quick": 1200, "thorough": 12000}, shards={"quick": 8, "thorough": 16}),
     SubCheck("matrix", body_matrix, strategy=matrix_case(), examples={"quick": 1200, "thorough": 12000}, shards={"quick": 8, "thorough": 16}),
     SubCheck("extract", body_extract, strategy=extract_case(), examples={"quick": 240, "thorough": 3200}, shards={"quick": 8, "thorough": 16}),
     SubCheck("reject", body_reject, strategy=reject_case(), examples={"quick": 60, "thorough": 600}, shards={"quick": 1, "thorough": 2}),
     SubCheck("simulator", body_simulator, strategy=simulator_case(), examples={"quick": 400, "thorough": 4000}, shards={"quick": 4, "thorough": 16}),
+    SubCheck("large", body_large, cases=cases_large, shards={"quick": 2, "thorough": 6}),
 ]
